@@ -27,7 +27,8 @@ EXPLANATION = (
     "a default or alias), its stability bound uses the maxima of the same V and M. (4) the one-population constructs of "
     "C02 (coefficients, kernel, Thomas solver, pyx glue, driver), C03 (scaling degrees), C04 (injection, telescoping), C05 "
     "(sampling 1D, dispatch), C07 (extrapolation) and C15 (Demographics1D / DFE models wiring) hold."
-    ' The general-h form is decided on values: phi_1D is executed abstractly in three worlds (gamma < 0 without / with the overflow shift, gamma >= 0), quadratures are opaque numbers that remember integrand and bounds, cells are rational part x exp(exponent).')
+    ' The general-h form is decided on values: phi_1D is executed abstractly in three worlds (gamma < 0 without / with the overflow shift, gamma >= 0), quadratures are opaque numbers that remember integrand and bounds, cells are rational part x exp(exponent).'
+    ' R-CTYPE: no quotient of two integer-typed operands in the C coefficient functions of the compiled one-population driver.')
 TECHNIQUE = "exact rational-function algebra with exp-atoms (differentiation, L'Hopital limits) on formulas extracted from the AST + scoped reuse of the sibling/degree/dispatch rules"
 DECLINED = ["convergence order in the time step and the 1.5% bound (numerical)", "agreement with the coalescent expectation for piecewise-constant histories (numerical)",
             "finiteness / non-negativity of the quadrature branch in floating point", "accuracy of scipy.integrate.quad"]
